@@ -79,6 +79,33 @@ impl Prop for C10 {
             if r.p(20) {
                 html.push_str(r.pick(&["<a name=\"end\"></a>", "<div id=\"foot\"></div>", "<span id=\"z\"></span>", "<p id=\"q\"></p>", " <a id=\"e2\"></a>"]));
             }
+            // documents with many links (10..40) where a link's size estimate decides layout: in table cells and in
+            // nested prefixed blocks (added after the seeded change C10-link-estimate-uses-parse-time-link-count)
+            if r.p(20) {
+                let n = 10 + r.u(31);
+                let mut t = String::new();
+                if r.p(60) {
+                    let cols = 2 + r.u(3);
+                    t.push_str("<table>");
+                    for k in 0..n {
+                        if k % cols == 0 {
+                            t.push_str("<tr>");
+                        }
+                        t.push_str(&format!("<td><a href=\"/{k}/\">n{k}</a>{}</td>", if r.p(40) { " tail words" } else { "" }));
+                        if k % cols == cols - 1 {
+                            t.push_str("</tr>");
+                        }
+                    }
+                    t.push_str("</table>");
+                } else {
+                    t.push_str("<ul>");
+                    for k in 0..n {
+                        t.push_str(&format!("<li><blockquote><a href=\"/{k}/\">n{k}</a></blockquote></li>"));
+                    }
+                    t.push_str("</ul>");
+                }
+                html.push_str(&t);
+            }
             let bytes = if i % 7 == 6 { gen::mutate(r, html.as_bytes()) } else { html.into_bytes() };
             let mut cfg = mk_cfg(r, css);
             if css && r.p(40) {
